@@ -56,7 +56,7 @@ def log(*ev):
     if not _PATH:
         return
     tok = _token()
-    rec = {"t": round(time.monotonic() - _T0, 4), "tid": tok, "ev": list(ev)}
+    rec = {"t": round(time.monotonic(), 5), "tid": tok, "ev": list(ev)}
     with _LOCK:
         with open(_PATH, "a") as fh:
             fh.write(json.dumps(rec) + "\n")
@@ -125,7 +125,7 @@ class PlainPool(Pool):
     utilisation = 1.0
     allocation = 1.0
 
-    def __init__(self, ident=0, **kwargs):
+    def __init__(self, ident=0):
         self.ident = ident
         self._demand = 0.0
         aio, tr = _loops()
